@@ -108,6 +108,18 @@ def handleC07 : List String → String
       | some rt => if resultNumericType op vt rt none = vt then "accept" else "reject"
       | none => if checkerType e == .unknown then "accept" else "reject")
     | _, _, _ => "bad-op")
+  | ["cplan", op, vt, _target, e] =>
+    -- `v op= e` is lowered to `v = v op e`: the plan of that top node (local variable or `mut` parameter alike)
+    (match parseOp op, parseNumTy vt, parseWhole e with
+    | some bop, some nvt, some ex =>
+      let accepted := match (checkerType ex).toNum with
+        | some rt => resultNumericType bop nvt rt none = nvt
+        | none => checkerType ex == .unknown
+      if !accepted then "reject" else
+        (match plansOf (lower (.bin bop (.var nvt) ex)) with
+        | p :: _ => "plan=" ++ p
+        | [] => "plan=-")
+    | _, _, _ => "bad-op")
   | _ => "bad-op"
 
 end Incan.Driver
